@@ -44,6 +44,8 @@ def standard_items(tier, rng, scratch, out, budget, extra_generators=()):
     out.cov(string_literal_shapes=len(lits))
     for i, t in enumerate(_take(lits, share, rng)):
         add(t, VERSIONS[i % 9], 'string-literals')
+    for i, t in enumerate(inputs.escape_literals()):
+        add(t, VERSIONS[i % 9], 'escape-literals')
     # grammar sentences: one shortest sentence through every arc of every DFA (all versions), two spellings
     from . import parserb, pgen_export
     arcs = []
